@@ -7,7 +7,11 @@
 (*   - the position inside the sample range that an outside query is       *)
 (*     mapped to by the modes bound / mirror / periodic (exactly, over Q), *)
 (*   - the outcome class: "value" | "nan" | "const" | "raise",             *)
-(*   - for the piecewise-linear interpolant the exact value.               *)
+(*   - for the piecewise-linear interpolant the exact value and its exact   *)
+(*     derivative w.r.t. the query point (slope of the segment times the   *)
+(*     derivative of the position map: 0 for bound, 1 for periodic, +-1    *)
+(*     for mirror; 0 for the padding classes), wherever it exists (the     *)
+(*     mapped position is not a knot).                                     *)
 (* How y is supplied (at construction, at call time, both) is part of the  *)
 (* configuration: both => a warning and the constructor's y wins; none =>  *)
 (* an error; periodic extrapolation of a spline requires y_1 = y_n.        *)
@@ -38,16 +42,27 @@ Map(gr, p, mode) ==
         [] mode = "mirror" -> LET a == RAbs(u) k == RFloor(a) f == RSub(a, R(k))
                                   v == IF k % 2 = 0 THEN f ELSE RSub(R(1), f)
                               IN RAdd(XMin(gr), RMul(v, Len_(gr)))
+Slope(gr, p) == LET i == Seg(gr, p) IN RDiv(R(gr.y[i + 1] - gr.y[i]), R(gr.x[i + 1] - gr.x[i]))
+IsKnot(gr, p) == \E i \in 1..N(gr) : R(gr.x[i]) = p
+\* derivative of the position maps at an outside point
+MapD(gr, p, mode) ==
+   LET u == RDiv(RSub(p, XMin(gr)), Len_(gr))
+   IN CASE mode = "bound" -> R(0)
+        [] mode = "periodic" -> R(1)
+        [] mode = "mirror" -> LET a == RAbs(u) k == RFloor(a)
+                                  sgn == IF RLt(u, R(0)) THEN 0 - 1 ELSE 1
+                              IN R(IF k % 2 = 0 THEN sgn ELSE 0 - sgn)
 ConstVal == R(7)
 Predict ==
-   IF ymode = "none" THEN [cls |-> "raise", warn |-> FALSE, pos |-> q, v |-> R(0)]
+   IF ymode = "none" THEN [cls |-> "raise", warn |-> FALSE, pos |-> q, v |-> R(0), smooth |-> FALSE, dq |-> R(0), mapd |-> R(0)]
    ELSE LET w == ymode = "both" IN
-        IF Inside(g, q) THEN [cls |-> "value", warn |-> w, pos |-> q, v |-> Linear(g, q)]
-        ELSE CASE extrap = "nan" -> [cls |-> "nan", warn |-> w, pos |-> q, v |-> R(0)]
-               [] extrap = "const" -> [cls |-> "const", warn |-> w, pos |-> q, v |-> ConstVal]
-               [] extrap = "const0" -> [cls |-> "const", warn |-> w, pos |-> q, v |-> R(0)]          \* the padding constant zero is a constant like any other
-               [] extrap = "constneg" -> [cls |-> "const", warn |-> w, pos |-> q, v |-> R(0 - 3)]
-               [] OTHER -> LET p == Map(g, q, extrap) IN [cls |-> "value", warn |-> w, pos |-> p, v |-> Linear(g, p)]
+        IF Inside(g, q) THEN [cls |-> "value", warn |-> w, pos |-> q, v |-> Linear(g, q), smooth |-> ~IsKnot(g, q), dq |-> Slope(g, q), mapd |-> R(1)]
+        ELSE CASE extrap = "nan" -> [cls |-> "nan", warn |-> w, pos |-> q, v |-> R(0), smooth |-> TRUE, dq |-> R(0), mapd |-> R(0)]
+               [] extrap = "const" -> [cls |-> "const", warn |-> w, pos |-> q, v |-> ConstVal, smooth |-> TRUE, dq |-> R(0), mapd |-> R(0)]
+               [] extrap = "const0" -> [cls |-> "const", warn |-> w, pos |-> q, v |-> R(0), smooth |-> TRUE, dq |-> R(0), mapd |-> R(0)]          \* the padding constant zero is a constant like any other
+               [] extrap = "constneg" -> [cls |-> "const", warn |-> w, pos |-> q, v |-> R(0 - 3), smooth |-> TRUE, dq |-> R(0), mapd |-> R(0)]
+               [] OTHER -> LET p == Map(g, q, extrap) IN [cls |-> "value", warn |-> w, pos |-> p, v |-> Linear(g, p),
+                                                         smooth |-> ~IsKnot(g, p), dq |-> RMul(Slope(g, p), MapD(g, q, extrap)), mapd |-> MapD(g, q, extrap)]
 Init == /\ g \in Grids /\ q \in Queries /\ extrap \in Extraps /\ ymode \in YModes /\ pred = Predict
 Next == UNCHANGED vars
 Spec == Init /\ [][Next]_vars
@@ -57,4 +72,7 @@ HitsSamples == \A i \in 1..N(g) : Linear(g, R(g.x[i])) = R(g.y[i])
 Between == pred.cls = "value" => LET i == Seg(g, pred.pos) lo == IF g.y[i] <= g.y[i + 1] THEN g.y[i] ELSE g.y[i + 1]
                                      hi == IF g.y[i] <= g.y[i + 1] THEN g.y[i + 1] ELSE g.y[i]
                                  IN RLe(R(lo), pred.v) /\ RLe(pred.v, R(hi))
+\* the derivative of a mapped query has the magnitude of a segment slope (or vanishes)
+SlopeMagnitude == (pred.cls = "value" /\ pred.smooth) =>
+                    (pred.dq = R(0) \/ \E i \in 1..(N(g) - 1) : RAbs(pred.dq) = RAbs(RDiv(R(g.y[i + 1] - g.y[i]), R(g.x[i + 1] - g.x[i]))))
 =============================================================================
